@@ -223,7 +223,11 @@ class Ctx:
         except BaseException as e:  # noqa
             want = PAYLOAD_OBJ.get(("p", pid), None)
             import concurrent.futures
-            if e is not want and (isinstance(e, (asyncio.CancelledError, concurrent.futures.CancelledError,
+            if type(e) is RuntimeError and e.__cause__ is want and isinstance(want, StopIteration):
+                e = want             # PEP 479: the payload's StopIteration, as coroutines / futures can carry it
+            no_runner = isinstance(e, KeyError) and bool(e.args) and any(e.args[0] is m for m in FLAV.values())
+            # (KeyError(<flavour module>): MetaRunner.run_payload found no runner - the run is over or on its way out)
+            if e is not want and (no_runner or isinstance(e, (asyncio.CancelledError, concurrent.futures.CancelledError,
                                                  trio.RunFinishedError, trio.Cancelled))
                                   or not self.runners[rid].running.is_set() or rid in self.ended):
                 out = ["aborted", type(e).__name__]
